@@ -45,6 +45,8 @@ fn model_from_json(v: &Value) -> LinearModel {
     let obj: Vec<f64> = v["obj"].as_array().unwrap().iter().map(pf).collect();
     let dir = match v["dir"].as_str().unwrap() { "min" => OptimizationType::Min, "max" => OptimizationType::Max, _ => OptimizationType::Satisfy };
     m.set_objective(obj, dir);
+    let off = v.get("offset").map(pf).unwrap_or(0.0);
+    if off != 0.0 { let (o, t, _, c, vs, d) = m.into_parts(); return LinearModel::new_from_parts(o, t, off, c, vs, d); }
     m
 }
 
@@ -57,13 +59,13 @@ fn gen_model(r: &mut Rng, kind: &str) -> LinearModel {
             "lp" | "shadow" => match r.below(6) {
                 0 | 1 => VariableType::NonNegativeReal(0.0, f64::INFINITY),
                 2 => VariableType::Real(f64::NEG_INFINITY, f64::INFINITY),
-                3 => VariableType::NonNegativeReal(0.0, r.range(1, 6) as f64),
+                3 => if r.chance(1, 2) { VariableType::NonNegativeReal(0.0, r.range(1, 6) as f64) } else { let lo = r.range(1, 3) as f64 * 0.5; VariableType::NonNegativeReal(lo, if r.chance(1, 2) { f64::INFINITY } else { lo + r.range(0, 4) as f64 }) },
                 4 => VariableType::Real(r.range(-4, 0) as f64, r.range(1, 5) as f64),
                 _ => VariableType::Real(f64::NEG_INFINITY, r.range(-1, 4) as f64),
             },
             "bigint" => { let lo = r.range(-2, 0) as i32; VariableType::IntegerRange(lo, lo + r.range(2, 6) as i32) }
             "int" => match r.below(3) { 0 => VariableType::Boolean, _ => { let lo = r.range(-2, 1) as i32; VariableType::IntegerRange(lo, lo + r.range(0, 4) as i32) } },
-            _ => match r.below(6) { 0 => VariableType::Boolean, 1 | 2 => { let lo = r.range(-2, 1) as i32; VariableType::IntegerRange(lo, lo + r.range(0, 4) as i32) }, 3 => VariableType::NonNegativeReal(0.0, r.range(1, 6) as f64), 4 => VariableType::Real(r.range(-3, 0) as f64, r.range(1, 4) as f64), _ => VariableType::NonNegativeReal(0.0, f64::INFINITY) },
+            _ => match r.below(6) { 0 => VariableType::Boolean, 1 | 2 => { let lo = r.range(-2, 1) as i32; VariableType::IntegerRange(lo, lo + r.range(0, 4) as i32) }, 3 => if r.chance(1, 2) { VariableType::NonNegativeReal(0.0, r.range(1, 6) as f64) } else { let lo = r.range(1, 3) as f64 * 0.5; VariableType::NonNegativeReal(lo, if r.chance(1, 2) { f64::INFINITY } else { lo + r.range(0, 4) as f64 }) }, 4 => VariableType::Real(r.range(-3, 0) as f64, r.range(1, 4) as f64), _ => VariableType::NonNegativeReal(0.0, f64::INFINITY) },
         };
         m.add_variable(names[i], t);
     }
@@ -78,6 +80,11 @@ fn gen_model(r: &mut Rng, kind: &str) -> LinearModel {
     let obj: Vec<f64> = (0..nv).map(|_| *r.pick(&coefs)).collect();
     let dir = match r.below(if kind == "int" || kind == "mixed" { 7 } else { 6 }) { 0 | 1 | 2 => OptimizationType::Min, 3 | 4 | 5 => OptimizationType::Max, _ => OptimizationType::Satisfy };
     m.set_objective(obj, dir);
+    // a constant term in the objective (what `min 2x + 10` compiles to), for both directions
+    if !matches!(m.optimization_type(), OptimizationType::Satisfy) && r.chance(1, 2) {
+        let (o, t, _, c, v, d) = m.into_parts();
+        return LinearModel::new_from_parts(o, t, *r.pick(&[10.0, -3.0, 0.5, 7.0, -12.5]), c, v, d);
+    }
     m
 }
 
